@@ -96,13 +96,13 @@ func (l *idleListener) Addr() net.Addr            { return strAddr("stream") }
 
 type nopW struct{}
 
-func (nopW) OnJoin(string)                   {}
-func (nopW) OnLeave(string)                  {}
-func (nopW) OnReachable(string)              {}
-func (nopW) OnUnreachable(string)            {}
+func (nopW) OnJoin(string)                      {}
+func (nopW) OnLeave(string)                     {}
+func (nopW) OnReachable(string)                 {}
+func (nopW) OnUnreachable(string)               {}
 func (nopW) OnUpsertKey(string, string, string) {}
-func (nopW) OnDeleteKey(string, string)      {}
-func (nopW) OnExpired(string)                {}
+func (nopW) OnDeleteKey(string, string)         {}
+func (nopW) OnExpired(string)                   {}
 
 type asyncNode struct {
 	id, addr string
